@@ -31,3 +31,8 @@ package dialect
 //@   loop 0 invariant forall k int :: 0 <= k && k <= i ==> (forall j int :: 0 <= j && j < k ==>
 //@                      rw.Dialect.Messages[j].GetID() != rw.Dialect.Messages[k].GetID())
 //@   loop 0 modifies *rw.messageRWs
+
+//@ func NewReadWriter returns (rw, err)
+//@   ghostlog (*dialect.ReadWriter).Initialize
+//@   ensures  rw != nil && rw.Dialect == d && logLen() == 1 && logCallee(0, "(*dialect.ReadWriter).Initialize") && logArgIsPtr(0, 0, rw) && err == logRetErr(0)
+//@   modifies ghost:log
